@@ -153,7 +153,7 @@ LEVEL_NOTE = ("XSD validity is decided in the model by xsdmini, a content-model/
               "by lxml in the real replay before it is reported.")
 
 
-def harnesses(tier):
+def _harnesses(tier):
     return [
         Harness("c11-corners", corner_cases(tier), frontier=5, budget_s=2400, conformance=8,
                 what="17 scenario families (empty root, only empty dirs, -sf below a nested history, -sf on an empty folder, runs exiting 10/11, "
@@ -166,3 +166,8 @@ def harnesses(tier):
                 what="differential test of the schema model against lxml on the repo's example manifests and mutated variants",
                 bounds={}, outside=[]),
     ]
+
+
+def harnesses(tier):
+    from . import tour
+    return list(_harnesses(tier)) + tour.harnesses(tier, "C11")
